@@ -137,6 +137,9 @@ func IntProgram(t ityp, thorough bool) diffrun.Program {
 	for _, op := range append(append([]binop{}, arith...), divs...) {
 		w("func %s_vv(x, y %s) %s { return x %s y }\n", op.Name, T, T, op.Tok)
 		w("func %s_as(x, y %s) %s { x %s= y; return x }\n", op.Name, T, T, op.Tok)
+		if op.Name != "quo" && op.Name != "rem" {
+			w("func %s_asn(x, y %s) %s { z := x; z %s= y - x; z %s= y + x; z %s= x | 1; return z }\n", op.Name, T, T, op.Tok, op.Tok, op.Tok)
+		}
 	}
 	for _, op := range cmps {
 		w("func %s_vv(x, y %s) bool { return x %s y }\n", op.Name, T, op.Tok)
@@ -246,6 +249,7 @@ func main() {
 	for _, op := range arith {
 		w("\t\t{ d := newDigest(); for _, y := range grid { d.DM(u(%s_vv(x, y))) }; println(id+\"%s/vv/x=\"+xs, d.String()) }\n", op.Name, op.Name)
 		w("\t\t{ d := newDigest(); for _, y := range grid { d.DM(u(%s_as(x, y))) }; println(id+\"%s/as/x=\"+xs, d.String()) }\n", op.Name, op.Name)
+		w("\t\t{ d := newDigest(); for _, y := range grid { d.DM(u(%s_asn(x, y))) }; println(id+\"%s/asn/x=\"+xs, d.String()) }\n", op.Name, op.Name)
 	}
 	for _, op := range divs {
 		w("\t\t{ d := newDigest(); for _, y := range grid { if y != 0 { d.DM(u(%s_vv(x, y))) } }; println(id+\"%s/vv/x=\"+xs, d.String()) }\n", op.Name, op.Name)
@@ -396,6 +400,7 @@ func FloatProgram() diffrun.Program {
 		for _, op := range []binop{{"add", "+"}, {"sub", "-"}, {"mul", "*"}, {"quo", "/"}} {
 			w("func %s_%s(x, y %s) %s { return x %s y }\n", op.Name, T, T, T, op.Tok)
 			w("func %sas_%s(x, y %s) %s { x %s= y; return x }\n", op.Name, T, T, T, op.Tok)
+			w("func %sasn_%s(x, y %s) %s { z := x; z %s= y - x; z %s= y + x; z %s= y * y; z %s= x / y; return z }\n", op.Name, T, T, T, op.Tok, op.Tok, op.Tok, op.Tok)
 			w("func %sn_%s(x, y %s) %s { return (x %s y) * y - x }\n", op.Name, T, T, T, op.Tok)
 			w("func %sm_%s(x, y %s) float64 { return float64(x %s y) + 0.5 }\n", op.Name, T, T, op.Tok)
 		}
@@ -425,8 +430,8 @@ func main() {
 		println("C06/float/conv32/i="+is, hex(gb(x32)), hex(fb(float64(x32))))
 `)
 	for _, op := range []string{"add", "sub", "mul", "quo"} {
-		w("\t\t{ d := newDigest(); for _, y := range grid { d.u64(fb(%[1]s_float64(x, y))); d.u64(fb(%[1]sas_float64(x, y))); d.u64(fb(%[1]sn_float64(x, y))); d.u64(fb(%[1]sm_float64(x, y))) }; println(\"C06/float64/%[1]s/i=\"+is, d.String()) }\n", op)
-		w("\t\t{ d := newDigest(); for _, y := range grid { y32 := float32(y); d.u64(gb(%[1]s_float32(x32, y32))); d.u64(gb(%[1]sas_float32(x32, y32))); d.u64(gb(%[1]sn_float32(x32, y32))); d.u64(fb(%[1]sm_float32(x32, y32))) }; println(\"C06/float32/%[1]s/i=\"+is, d.String()) }\n", op)
+		w("\t\t{ d := newDigest(); for _, y := range grid { d.u64(fb(%[1]s_float64(x, y))); d.u64(fb(%[1]sas_float64(x, y))); d.u64(fb(%[1]sasn_float64(x, y))); d.u64(fb(%[1]sn_float64(x, y))); d.u64(fb(%[1]sm_float64(x, y))) }; println(\"C06/float64/%[1]s/i=\"+is, d.String()) }\n", op)
+		w("\t\t{ d := newDigest(); for _, y := range grid { y32 := float32(y); d.u64(gb(%[1]s_float32(x32, y32))); d.u64(gb(%[1]sas_float32(x32, y32))); d.u64(gb(%[1]sasn_float32(x32, y32))); d.u64(gb(%[1]sn_float32(x32, y32))); d.u64(fb(%[1]sm_float32(x32, y32))) }; println(\"C06/float32/%[1]s/i=\"+is, d.String()) }\n", op)
 	}
 	for _, op := range cmps {
 		w("\t\t{ d := newDigest(); for _, y := range grid { d.u64(bu(%[1]s_float64(x, y))); d.u64(bu(%[1]s_float32(x32, float32(y)))) }; println(\"C06/float/%[1]s/i=\"+is, d.String()) }\n", op.Name)
